@@ -79,7 +79,7 @@ func Name(t *rapid.T, label string, small bool) string {
 		case 0, 1, 2, 3:
 			parts = []string{rapid.SampledFrom([]string{"a", "b", "c", "file", "dir", "x1", "data", "Z"}).Draw(t, label)}
 		case 4:
-			parts = []string{rapid.SampledFrom([]string{"..a", "a..b", "...", "..hidden", ".a", "a.", "a..", "....", ".. ", " ..", "a..b..c", "..zip", "...zip", "x.zip", "x.gz", "a.jar"}).Draw(t, label)}
+			parts = []string{rapid.SampledFrom([]string{"..a", "a..b", "...", "..hidden", ".a", "a.", "a..", "....", ".. ", " ..", "a..b..c", "..zip", "...zip", "x.zip", "x.gz", "a.jar", "a\\b", "back\\slash.txt", "w\\"}).Draw(t, label)}
 		case 5:
 			parts = []string{strings.Repeat(rapid.SampledFrom([]string{"a", "é", "xy"}).Draw(t, label+"-rep"), rapid.IntRange(20, 100).Draw(t, label+"-n"))}
 		default:
